@@ -469,7 +469,7 @@ func rulesC13(e *Engine, r *Report) {
 			okA = strings.HasSuffix(s, "+ var(n)))") || strings.HasSuffix(s, "+ conv(int64)(var(n))))") || strings.Contains(s, "+ phi(")
 		}
 		r.Check(okA, "R13.8", "payload.(*Encoder).Read: progress advances by the count reported", e.Pos(fn.Pos()), "the part's progress is not advanced by the reported count", 1)
-		nx := e.ifEdges(fn, "(("+left+" - §) == 0)")
+		nx := e.ifEdges(fn, "(("+left+" - §) «(==|<=)» 0)")
 		r.Check(len(nx) >= 1, "R13.8", "payload.(*Encoder).Read: next part when the declared extent is used up", e.Pos(fn.Pos()), "the switch to the next part no longer depends on the declared extent being used up", 1)
 		cl := e.findInstrs(fn, "call(payload.(*Encoder).startNextPart)(p0)", false)
 		r.Min("R13.8", "part switches in Read", len(cl), 2)
@@ -506,4 +506,16 @@ func rulesC13(e *Engine, r *Report) {
 	// ---------------------------------------------------------------- R13.10
 	r.Rule("R13.10", "a body that ends early is an error, not a wait: every io.Pipe() of the module has its writing end closed, on every path, by the goroutine that feeds it (the header decoder, the request bodies and the JSON reader all read from such pipes; three of the four feeders always closed, the one behind the payload header did not - a header longer than X-STS-MetaLen, or a connection cut inside the header, left the request handler waiting for ever)")
 	e.checkPipeWritersClosed(r, "R13.10", 4)
+	// ---------------------------------------------------------------- R13.11
+	r.Rule("R13.11", "a part is left only when its announced length has gone out: in Encoder.Read the next part is started only when there is no current part yet or the bytes left of the current one - (end - beg) minus what was emitted - are zero; an early end of the file (it shrank after it was binned) or an empty read does not end the part, because the receiver finds the parts behind it by counting the bytes the header promised")
+	if fn := needFn(e, r, "R13.11", "payload.(*Encoder).Read"); fn != nil {
+		cls := labeler(
+			C("(p0.binPart == nil)", "noPart"),
+			C("(«\\(+»p0.binPart.end - p0.binPart.beg) - §) «(==|<=)» 0)", "partEmitted"),
+			C("(0 «(==|>=)» «\\(+»p0.binPart.end - p0.binPart.beg) - §))", "partEmitted"),
+		)
+		n := e.Guarded(r, "R13.11", "payload.(*Encoder).Read: startNextPart only when the current part is emitted in full", fn, e.instrMatch("call(payload.(*Encoder).startNextPart)(p0)"), cls,
+			func(l LabelSet) bool { return l.HasAny("noPart", "partEmitted") }, "binPart == nil, or bytes left of the part == 0")
+		r.Min("R13.11", "part switches in Encoder.Read", n, 2)
+	}
 }
